@@ -1,5 +1,12 @@
 (* C05 — Synchronous Hyperband fills rungs exactly and promotes exactly the top trials.
-   Only statements; every proof is [exact <lemma of proofs/SyncHBProofs.v>]. *)
+   Only statements; every proof is [exact <lemma of proofs/SyncHBProofs.v>].
+
+   [run_from rss md ops] is the scheduler shell (model/SyncHB.v) started on the rung systems
+   [rss] with mode [md] and driven by the event list [ops]: OSuggest (a worker asks for work),
+   OReport t below v (trial t reports metric v at resource = its milestone - below),
+   OError t (trial t fails), OCollect.  t, below, v are arbitrary, so the theorems cover every
+   order in which the pending jobs of any number of open brackets return and every subset of
+   failing jobs (failure = the slot receives NaN). *)
 From Verif Require Import model.Base model.SyncHB proofs.SyncHBProofs.
 From Coq Require Import Permutation.
 
@@ -18,3 +25,138 @@ Theorem c05_top_k :
     (forall a, In a top -> In (a, NaN) rung -> forall b y, In b rest -> ~ In (b, Val y) rung).
 Proof. exact get_top_list_spec. Qed.
 Print Assumptions c05_top_k.
+
+(* In every reachable state, whenever the answer of a pending job completes a rung and returns
+   the list [rem] of trials not promoted: the next rung consists exactly of [top] where
+   (top, rem) = get_top_list of the completed rung's (trial, metric) entries and of the
+   configured size [nl] of the next rung — and the hypotheses of c05_top_k hold for it. *)
+Theorem c05_promoted_are_top :
+  forall rss md ops st t bid s v b b' rem, check_bracket_rungs rss = true ->
+    run_from rss md ops = Ok st -> lookup t (s_pending st) = Some (bid, s) ->
+    nth_error (m_brackets (s_mgr st)) bid = Some b ->
+    bracket_on_result b (mkSIR (rung_index s) (level s) (slot_index s) (trial_id s) (Some v)) = Ok (b', Some rem) ->
+    exists sl lv vals nl ms top,
+      current_rung_and_level b = Ok (sl, lv) /\
+      occupied_values (upd sl (slot_index s) (Some t, Some v)) = Some vals /\
+      nth_error (rungs b) (S (current_rung b)) = Some (Future nl ms) /\
+      get_top_list md vals nl = (top, rem) /\
+      current_rung_and_level b' = Ok (map (fun x => (x, None)) top, ms) /\
+      current_rung b' = S (current_rung b) /\
+      NoDup (map fst vals) /\ (nl <= length vals)%nat.
+Proof. exact promoted_are_top. Qed.
+Print Assumptions c05_promoted_are_top.
+
+(* Every completed rung of every bracket has exactly the configured size and level, every slot
+   holds a trial and a value, and the trials are pairwise distinct. *)
+Theorem c05_rung_filled_by_distinct :
+  forall rss md ops st, check_bracket_rungs rss = true -> run_from rss md ops = Ok st ->
+  forall j b, nth_error (m_brackets (s_mgr st)) j = Some b ->
+  forall k, (k < current_rung b)%nat ->
+    exists sl lv, nth_error (rungs b) k = Some (Filled sl lv) /\
+      nth_error (nth (j mod length rss) rss []) k = Some (length sl, lv) /\
+      Forall (fun s => exists t v, s = (Some t, Some v)) sl /\ NoDup (map fst sl).
+Proof. exact rung_filled_by_distinct. Qed.
+Print Assumptions c05_rung_filled_by_distinct.
+
+(* The rung being filled has the configured size and level, holds distinct trials and is not
+   complete (some slot has no value yet). *)
+Theorem c05_current_rung_shape :
+  forall rss md ops st, check_bracket_rungs rss = true -> run_from rss md ops = Ok st ->
+  forall j b sl lv, nth_error (m_brackets (s_mgr st)) j = Some b ->
+    current_rung_and_level b = Ok (sl, lv) ->
+    nth_error (nth (j mod length rss) rss []) (current_rung b) = Some (length sl, lv) /\
+    NoDup (somes (map fst sl)) /\ (first_free_pos b <= length sl)%nat /\
+    (exists pos t, nth_error sl pos = Some (t, None)).
+Proof. exact current_rung_shape. Qed.
+Print Assumptions c05_current_rung_shape.
+
+(* A job handed out by next_job is a slot of rung [rung_index s] of an incomplete bracket, and
+   every slot of every lower rung of that bracket has a trial and a value. *)
+Theorem c05_promote_after_complete :
+  forall rss md ops st m' bid s, check_bracket_rungs rss = true ->
+    run_from rss md ops = Ok st -> next_job (s_mgr st) = Ok (m', (bid, s)) ->
+    exists b', nth_error (m_brackets m') bid = Some b' /\ rung_index s = current_rung b' /\
+      is_bracket_complete b' = false /\
+      forall k, (k < rung_index s)%nat ->
+        exists sl lv, nth_error (rungs b') k = Some (Filled sl lv) /\
+                      Forall (fun x => exists t v, x = (Some t, Some v)) sl.
+Proof. exact promote_after_complete. Qed.
+Print Assumptions c05_promote_after_complete.
+
+(* A request for work never blocks: in every reachable state next_job returns a job, from an
+   open bracket (id >= primary) that has a free slot, or — exactly when no open bracket has a
+   free slot — from a newly created bracket. *)
+Theorem c05_never_blocks :
+  forall rss md ops st, check_bracket_rungs rss = true -> run_from rss md ops = Ok st ->
+  exists m' bid s, next_job (s_mgr st) = Ok (m', (bid, s)) /\
+    (m_primary (s_mgr st) <= bid)%nat /\
+    ((length (m_brackets m') = length (m_brackets (s_mgr st)) /\ (bid < length (m_brackets (s_mgr st)))%nat /\
+      (exists b, nth_error (m_brackets (s_mgr st)) bid = Some b /\ has_free_slot b = true))
+     \/ (length (m_brackets m') = S (length (m_brackets (s_mgr st))) /\ bid = length (m_brackets (s_mgr st)) /\
+         forall j b, (m_primary (s_mgr st) <= j)%nat -> nth_error (m_brackets (s_mgr st)) j = Some b ->
+                     has_free_slot b = false)).
+Proof. exact never_blocks. Qed.
+Print Assumptions c05_never_blocks.
+
+(* Brackets cycle through the rung systems: the j-th bracket ever created has offset
+   j mod num_offsets and the sizes/levels of its rungs are those of that rung system. *)
+Theorem c05_offsets_cycle :
+  forall rss md ops st, check_bracket_rungs rss = true -> run_from rss md ops = Ok st ->
+  length (m_offsets (s_mgr st)) = length (m_brackets (s_mgr st)) /\
+  forall j b, nth_error (m_brackets (s_mgr st)) j = Some b ->
+    nth_error (m_offsets (s_mgr st)) j = Some (j mod length rss)%nat /\
+    map entry_shape (rungs b) = nth (j mod length rss) rss [] /\ bmode b = md.
+Proof. exact offsets_cycle. Qed.
+Print Assumptions c05_offsets_cycle.
+
+(* No assertion / exception of the code is reachable: every event sequence is accepted. *)
+Theorem c05_no_error :
+  forall rss md ops, check_bracket_rungs rss = true -> exists st, run_from rss md ops = Ok st.
+Proof. exact no_error. Qed.
+Print Assumptions c05_no_error.
+
+(* No slot stays pending forever: (a) every slot that was handed out and has no value belongs
+   to a trial registered as pending (it will report or fail) ... *)
+Theorem c05_pending_slots_have_trials :
+  forall rss md ops st, check_bracket_rungs rss = true -> run_from rss md ops = Ok st ->
+  forall j b sl lv pos t0, nth_error (m_brackets (s_mgr st)) j = Some b ->
+    current_rung_and_level b = Ok (sl, lv) -> (pos < first_free_pos b)%nat ->
+    nth_error sl pos = Some (t0, None) ->
+    exists t s, lookup t (s_pending st) = Some (j, s) /\ slot_index s = pos /\
+                rung_index s = current_rung b /\ level s = lv /\ trial_id s = Some t.
+Proof. exact pending_slots_have_trials. Qed.
+Print Assumptions c05_pending_slots_have_trials.
+
+(* ... and (b) when a pending trial fails, on_trial_error succeeds, the trial is no longer
+   pending and its slot holds (trial, NaN), so the rung's completion depends only on the
+   remaining pending jobs. *)
+Theorem c05_no_eternal_pending :
+  forall rss md ops st t bid s, check_bracket_rungs rss = true ->
+    run_from rss md ops = Ok st -> lookup t (s_pending st) = Some (bid, s) ->
+    exists st', on_trial_error st t = Ok st' /\ lookup t (s_pending st') = None /\
+      exists b' sl' lv', nth_error (m_brackets (s_mgr st')) bid = Some b' /\
+        nth_error (rungs b') (rung_index s) = Some (Filled sl' lv') /\
+        nth_error sl' (slot_index s) = Some (Some t, Some NaN).
+Proof. exact trial_error_fills_slot. Qed.
+Print Assumptions c05_no_eternal_pending.
+
+(* non-vacuity: a rung system accepted by the constructor; three workers, one job fails, the
+   first rung completes with a tie, the best two (stable order) are promoted, a second bracket
+   was opened while the first one waited. *)
+Example c05_example :
+  let rss : list rung_system :=
+    [[(3%nat, 1%Z); (2%nat, 3%Z); (1%nat, 9%Z)]; [(2%nat, 3%Z); (1%nat, 9%Z)]] in
+  let ops := [OSuggest; OSuggest; OSuggest; OSuggest;
+              OReport 1 0 (Val (1 # 2)); OError 0; OReport 2 0 (Val (1 # 2)); OSuggest] in
+  check_bracket_rungs rss = true /\
+  match run_from rss Min ops with
+  | Ok st =>
+      length (m_brackets (s_mgr st)) = 2%nat /\ m_offsets (s_mgr st) = [0; 1]%nat /\
+      map fst (s_pending st) = [3; 1]%Z /\ s_removable st = [Some 0%Z] /\
+      (exists b, nth_error (m_brackets (s_mgr st)) 0 = Some b /\ current_rung b = 1%nat /\
+                 cur_ids b = [1; 2]%Z)
+  | Error _ => False
+  end /\
+  get_top_list Max [(Some 1%Z, Val 1); (Some 2%Z, NaN); (Some 3%Z, Val 2); (Some 4%Z, Val 2)] 2
+    = ([Some 3%Z; Some 4%Z], [Some 1%Z; Some 2%Z]).
+Proof. vm_compute. repeat split; eexists; repeat split. Qed.
